@@ -260,6 +260,42 @@ Val icmp(unsigned pred, const Val& a, const Val& b)
     }
 }
 
+// ---------------------------------------------------------------------------------------------------------------
+// symbolic floating point: values stay IEEE bit patterns (bit-vector terms); every operation goes through z3's FP theory
+// (bit-precise, round-to-nearest-even). NaN payloads produced by operations are z3's canonical NaN (hardware may differ).
+bool g_has_fp = false;
+z3::sort fpSort(Type* t)
+{
+    if (t->isDoubleTy()) return z3::sort(*C, Z3_mk_fpa_sort_double(*C));
+    if (t->isFloatTy()) return z3::sort(*C, Z3_mk_fpa_sort_single(*C));
+    if (t->isHalfTy()) return z3::sort(*C, Z3_mk_fpa_sort_half(*C));
+    unsupported("symbolic floating point of this width");
+}
+z3::expr toFP(const Val& v, Type* t)
+{
+    g_has_fp = g_fp_terms = true;
+    return z3::expr(*C, Z3_mk_fpa_to_fp_bv(*C, E(v), fpSort(t)));
+}
+Val fromFP(const z3::expr& f)
+{
+    return VS(z3::expr(*C, Z3_mk_fpa_to_ieee_bv(*C, f)));
+}
+z3::expr RM(int mode) // 0 RNE, 1 RTN (floor), 2 RTP (ceil), 3 RTZ, 4 RNA
+{
+    switch (mode)
+    {
+    case 1: return z3::expr(*C, Z3_mk_fpa_rtn(*C));
+    case 2: return z3::expr(*C, Z3_mk_fpa_rtp(*C));
+    case 3: return z3::expr(*C, Z3_mk_fpa_rtz(*C));
+    case 4: return z3::expr(*C, Z3_mk_fpa_rna(*C));
+    default: return z3::expr(*C, Z3_mk_fpa_rne(*C));
+    }
+}
+bool symfp_ok(Type* t)
+{
+    return t->isDoubleTy() || t->isFloatTy();
+}
+
 const fltSemantics& semOf(Type* t)
 {
     return t->getFltSemantics();
@@ -300,6 +336,18 @@ Val fbin(unsigned opc, const Val& a, const Val& b, Type* t)
         Type*            et = cast<FixedVectorType>(t)->getElementType();
         for (size_t i = 0; i < a.a->size(); ++i) r.push_back(fbin(opc, (*a.a)[i], (*b.a)[i], et));
         return VAgg(std::move(r));
+    }
+    if ((a.isS() || b.isS()) && symfp_ok(t))
+    {
+        z3::expr x = toFP(a, t), y = toFP(b, t), rm = RM(0);
+        switch (opc)
+        {
+        case Instruction::FAdd: return fromFP(z3::expr(*C, Z3_mk_fpa_add(*C, rm, x, y)));
+        case Instruction::FSub: return fromFP(z3::expr(*C, Z3_mk_fpa_sub(*C, rm, x, y)));
+        case Instruction::FMul: return fromFP(z3::expr(*C, Z3_mk_fpa_mul(*C, rm, x, y)));
+        case Instruction::FDiv: return fromFP(z3::expr(*C, Z3_mk_fpa_div(*C, rm, x, y)));
+        default: unsupported("frem on a symbolic value");
+        }
     }
     if (t->isDoubleTy())
     {
@@ -347,6 +395,31 @@ Val fcmp(unsigned pred, const Val& a, const Val& b, Type* t)
         Type*            et = cast<FixedVectorType>(t)->getElementType();
         for (size_t i = 0; i < a.a->size(); ++i) r.push_back(fcmp(pred, (*a.a)[i], (*b.a)[i], et));
         return VAgg(std::move(r));
+    }
+    if ((a.isS() || b.isS()) && symfp_ok(t))
+    {
+        z3::expr x = toFP(a, t), y = toFP(b, t);
+        z3::expr un = z3::expr(*C, Z3_mk_fpa_is_nan(*C, x)) || z3::expr(*C, Z3_mk_fpa_is_nan(*C, y));
+        z3::expr eq = z3::expr(*C, Z3_mk_fpa_eq(*C, x, y)), lt = z3::expr(*C, Z3_mk_fpa_lt(*C, x, y)), gt = z3::expr(*C, Z3_mk_fpa_gt(*C, x, y));
+        switch (pred)
+        {
+        case CmpInst::FCMP_FALSE: return VC(1, 0);
+        case CmpInst::FCMP_OEQ: return fromBool(eq);
+        case CmpInst::FCMP_OGT: return fromBool(gt);
+        case CmpInst::FCMP_OGE: return fromBool(gt || eq);
+        case CmpInst::FCMP_OLT: return fromBool(lt);
+        case CmpInst::FCMP_OLE: return fromBool(lt || eq);
+        case CmpInst::FCMP_ONE: return fromBool(lt || gt);
+        case CmpInst::FCMP_ORD: return fromBool(!un);
+        case CmpInst::FCMP_UNO: return fromBool(un);
+        case CmpInst::FCMP_UEQ: return fromBool(un || eq);
+        case CmpInst::FCMP_UGT: return fromBool(un || gt);
+        case CmpInst::FCMP_UGE: return fromBool(un || gt || eq);
+        case CmpInst::FCMP_ULT: return fromBool(un || lt);
+        case CmpInst::FCMP_ULE: return fromBool(un || lt || eq);
+        case CmpInst::FCMP_UNE: return fromBool(un || lt || gt);
+        default: return VC(1, 1);
+        }
     }
     APFloat            x = toF(a, t), y = toF(b, t);
     APFloat::cmpResult c = x.compare(y);
@@ -422,6 +495,11 @@ Val castv(unsigned opc, const Val& v, Type* from, Type* to)
     case Instruction::FPToUI:
     case Instruction::FPToSI:
     {
+        if (v.isS() && symfp_ok(from))
+        {
+            z3::expr f = toFP(v, from);
+            return VS(z3::expr(*C, opc == Instruction::FPToSI ? Z3_mk_fpa_to_sbv(*C, RM(3), f, tw) : Z3_mk_fpa_to_ubv(*C, RM(3), f, tw)));
+        }
         APFloat f = toF(v, from);
         APSInt  r(tw, opc == Instruction::FPToUI);
         bool    exact;
@@ -431,7 +509,12 @@ Val castv(unsigned opc, const Val& v, Type* from, Type* to)
     case Instruction::UIToFP:
     case Instruction::SIToFP:
     {
-        if (!v.isC()) unsupported("int->fp conversion of a symbolic value");
+        if (!v.isC())
+        {
+            if (!symfp_ok(to)) unsupported("int->fp conversion of a symbolic value to this type");
+            g_has_fp = g_fp_terms = true;
+            return fromFP(z3::expr(*C, opc == Instruction::SIToFP ? Z3_mk_fpa_to_fp_signed(*C, RM(0), E(v), fpSort(to)) : Z3_mk_fpa_to_fp_unsigned(*C, RM(0), E(v), fpSort(to))));
+        }
         APFloat f(semOf(to));
         f.convertFromAPInt(v.c, opc == Instruction::SIToFP, APFloat::rmNearestTiesToEven);
         return fromF(f);
@@ -439,6 +522,7 @@ Val castv(unsigned opc, const Val& v, Type* from, Type* to)
     case Instruction::FPTrunc:
     case Instruction::FPExt:
     {
+        if (v.isS() && symfp_ok(from) && symfp_ok(to)) return fromFP(z3::expr(*C, Z3_mk_fpa_to_fp_float(*C, RM(0), toFP(v, from), fpSort(to))));
         APFloat f = toF(v, from);
         bool    li;
         f.convert(semOf(to), APFloat::rmNearestTiesToEven, &li);
@@ -499,8 +583,9 @@ std::vector<uint64_t> feasible_values(const z3::expr& e, int cap, bool& complete
 uint64_t concretize(const Val& v, const char* what)
 {
     if (v.isC()) return v.u64();
+    z3::expr e = apply_known(E(v));
+    if (e.is_numeral()) return e.get_numeral_uint64();
     S->concretizations++;
-    z3::expr e = E(v);
     int      n = 0;
     for (;;)
     {
@@ -513,6 +598,7 @@ uint64_t concretize(const Val& v, const char* what)
         QR       ro = query(&ne);
         if (ro.r == z3::unsat)
         {
+            learn_equal(e, C->bv_val(x, v.w));
             return x;
         }
         if (ro.r == z3::unknown)
@@ -530,6 +616,7 @@ uint64_t concretize(const Val& v, const char* what)
             continue;
         }
         pc->push_back(eq);
+        learn_equal(e, C->bv_val(x, v.w));
         return x;
     }
 }
@@ -604,9 +691,10 @@ void store_val(uint64_t a, Type* t, const Val& v)
 Val load_sym(const Val& p, Type* t)
 {
     if (p.isC()) return load_val(p.u64(), t);
-    S->ptr_merges++;
     bool     complete;
-    z3::expr pe   = E(p);
+    z3::expr pe   = apply_known(E(p));
+    if (pe.is_numeral()) return load_val(pe.get_numeral_uint64(), t);
+    S->ptr_merges++;
     auto     vals = feasible_values(pe, merge_cap, complete);
     if (!complete) finish(K_INCONCLUSIVE, "symbolic pointer with too many targets (load)");
     if (vals.empty()) finish(K_PRUNED, "infeasible");
@@ -621,9 +709,14 @@ void store_sym(const Val& p, Type* t, const Val& v)
         store_val(p.u64(), t, v);
         return;
     }
-    S->ptr_merges++;
     bool     complete;
-    z3::expr pe   = E(p);
+    z3::expr pe   = apply_known(E(p));
+    if (pe.is_numeral())
+    {
+        store_val(pe.get_numeral_uint64(), t, v);
+        return;
+    }
+    S->ptr_merges++;
     auto     vals = feasible_values(pe, merge_cap, complete);
     if (!complete) finish(K_INCONCLUSIVE, "symbolic pointer with too many targets (store)");
     if (vals.size() == 1)
